@@ -1,5 +1,95 @@
-import RSVerif.Basic
-/- C04: line-protocol driver (stub) -/
+import RSVerif.Drive.C03
+/-
+C04: same case lines and predictions as C03 (go/harness/c0304_common.go). The verdict adds, for EVERY cut
+position of the recorded wire: the dataset equals the history up to the checkpoint the loader must return,
+that checkpoint carries run id and version in its database, and the resumed run (model) ends with the
+dataset of the uninterrupted one.
+-/
 namespace RSVerif.Drive.C04
-def handle (_line : String) : String := "unimplemented"
+open RSVerif RSVerif.Sync RSVerif.Sender RSVerif.IncrParse RSVerif.Spec.IncrSync RSVerif.Spec.MiniRedis
+open RSVerif.Generated RSVerif.Drive.C03
+
+/-- the checkpoint the loader must return: fold `offset > newest` over the databases holding the hash -/
+def newest (st : St Log) (offField : Bytes) : Option (Int × Int) :=
+  (st.ckpt.map (·.1)).eraseDups.foldl (fun best d =>
+    match storedInt st d offField, best with
+    | some o, none => some (d, o)
+    | some o, some (bd, bo) => if o > bo then some (d, o) else some (bd, bo)
+    | none, b => b) none
+
+def startSelect (dbX X : Int) : List Item :=
+  if dbX = 0 then [] else [{ cmd := "select", args := [fmtInt dbX], off := X, db := dbX }]
+
+def resumeItems (items : List Item) (dbX X : Int) : List Item :=
+  startSelect dbX X ++ items.filter (fun it => decide (X < it.off))
+
+/-- one cut position; `none` = consistent -/
+def cutCheck (s : SCfgT) (items : List Item) (wire : List Cmd) (p : Nat) : Option String :=
+  let ck := s.rc.ckName
+  let hist := nonMarkers items
+  let st := drop (replay ck logApply st0 (wire.take p))
+  let full := (plain ck logApply st0 (hist.map cmdOf)).data
+  match newest st (offsetField s.rc) with
+  | none => if st.data == [] then none else some s!"cut{p}:data-without-checkpoint"
+  | some (dbX, X) =>
+    let ref := plain ck logApply st0 ((hist.filter (fun it => decide (it.off ≤ X))).map cmdOf)
+    if st.data != ref.data then some s!"cut{p}:data-differs-from-history-up-to-{X}"
+    else if ref.db != dbX then some s!"cut{p}:checkpoint-db-{dbX}-is-not-the-selected-db"
+    else if hget st dbX (runIdField s.rc) != some s.rc.runId then some s!"cut{p}:no-runid-in-db-{dbX}"
+    else if hget st dbX (versionField s.rc) != some (fmtInt SyncConsts.fcvCheckpointCurrent) then
+      some s!"cut{p}:no-version-in-db-{dbX}"
+    else
+      -- resume (model of the second run, canonical schedule) from offset X+1 in database dbX
+      let items2 := resumeItems items dbX X
+      let wire2 := (canonical s.cfg s.rc items2).flatten
+      let fin := replay ck logApply (reconnect st) wire2
+      if fin.data != full then some s!"cut{p}:resume-differs" else none
+
+def cutOracle (s : SCfgT) (items : List Item) (wire : List Cmd) : Option String :=
+  (List.range (wire.length + 1)).findSome? (cutCheck s items wire)
+
+def increasing : List Item → Bool
+  | a :: b :: rest => decide (a.off < b.off) && increasing (b :: rest)
+  | _ => true
+
+def judgeC04 (s : SCfgT) (items : List Item) (route : Option (Log → Bool)) (impl : String)
+    (routeWhy : String := "reject:route") : String :=
+  let base := judgeTrace s items route impl routeWhy
+  if base != "ok" then base
+  else if !s.cfg.resume || !senderHyps s.rc.ckName items || !increasing items then "ok"
+  else
+    match parseTrace impl with
+    | some (tr, _) =>
+      match cutOracle s items tr.flatten with
+      | none => "ok"
+      | some why => s!"reject:{why}"
+    | none => "reject:unparsable"
+
+def judge (case impl : String) : String :=
+  match case.splitOn " " with
+  | ["send", sc, items, _gaps] =>
+    match parseScfg sc, parseItems items with
+    | some s, some its => judgeC04 s its none impl
+    | _, _ => "badcase"
+  | ["pipe", pc, sc, startDb, base, cmds, _gaps] =>
+    match parsePcfg pc, parseScfg sc, startDb.toInt?, base.toInt?, parseCmds cmds with
+    | some p, some s, some sd, some b, some cs =>
+      let (items, ab) := parseModel p sd b cs
+      if ab then "badcase-abort"
+      else
+        let v := judgeC04 s items
+          (if routePre p.toCfg sd cs then some (routeOracle s.rc.ckName p.toCfg sd cs) else none) impl
+          (if d8Hit p.toCfg sd cs then "reject:route:d8" else "reject:route")
+        -- deviation D8 also keys runIdMap with a database the connection is not in: the checkpoint database then
+        -- lacks run id/version (same root cause, same finding)
+        if d8Hit p.toCfg sd cs && v.startsWith "reject:cut" && ((v.splitOn ":no-runid-in-db").length > 1 ||
+            (v.splitOn ":no-version-in-db").length > 1) then v ++ ":d8" else v
+    | _, _, _, _, _ => "badcase"
+  | _ => "badcase"
+
+def handle (line : String) : String :=
+  match line.splitOn "\t" with
+  | ["judge", case, impl] => judge case impl
+  | _ => RSVerif.Drive.C03.handle line
+
 end RSVerif.Drive.C04
